@@ -29,7 +29,9 @@ def run(ctx, replay=None):
     if replay:
         groups = [[tuple(replay["case"])]]
     else:
-        groups = [[(n, ctx.rng.randrange(10 ** 6)) for n in g for _ in range(per)] for g in GROUPS]
+        heavy = {"TokenCooccurrenceVectorizer", "TimedTokenCooccurrenceVectorizer", "MultiSetCooccurrenceVectorizer",
+                 "NgramCooccurrenceVectorizer", "DistributionVectorizer"}
+        groups = [[(n, ctx.rng.randrange(10 ** 6)) for n in g for _ in range(per if n in heavy else 3 * per)] for g in GROUPS]
     with ThreadPoolExecutor(max_workers=10) as ex:
         futs = [ex.submit(C.run_impl, "c02", [list(c) for c in g], None, 2400) for g in groups]
         results = [f.result() for f in futs]
